@@ -23,15 +23,16 @@ def run_breaker_history(scn):
         kw["trip_on"] = tset
     if cfg.get("class_thresholds"):
         kw["class_thresholds"] = {ErrorClass[c]: n for c, n in cfg["class_thresholds"].items()}
-    sib = scn.get("sibling")     # another breaker built from the caller's SAME trip_on set object
+    sib = scn.get("sibling")     # another breaker built from the caller's SAME trip_on set object (or, like it, from the default)
     def make_sibling():
         CircuitBreaker(failure_threshold=3, window_s=1.0, recovery_timeout_s=1.0, trip_on=tset,
                        class_thresholds={ErrorClass[c]: n for c, n in sib["class_thresholds"].items()}, clock=clock.monotonic)
-    if sib and tset is not None and sib.get("when") == "before":
+    if sib and sib.get("when") == "before":
         make_sibling()
-        tset.intersection_update({ErrorClass[c] for c in cfg["trip_on"]})   # the caller's set as the caller wrote it
+        if tset is not None:
+            tset.intersection_update({ErrorClass[c] for c in cfg["trip_on"]})   # the caller's set as the caller wrote it
     real = CircuitBreaker(**kw)
-    if sib and tset is not None and sib.get("when") == "after":
+    if sib and sib.get("when") == "after":
         make_sibling()
     model = RefBreaker(cfg["F"], cfg["window_us"], cfg["recovery_us"], cfg.get("trip_on"), cfg.get("class_thresholds"))
     steps = []
